@@ -37,6 +37,7 @@ import (
 	"github.com/spq/pkappa2/internal/verif/vregex"
 	"pgregory.net/rapid"
 	"rsc.io/binaryregexp"
+	"rsc.io/binaryregexp/syntax"
 )
 
 const (
@@ -322,12 +323,63 @@ type c04Analysis struct {
 	class          string
 }
 
+// c04ProgPaths estimates how many walks through the compiled program
+// regexanalysis.ConstantSuffix / AcceptedLength make: they follow both branches
+// of every alternation to the end of the program without memoising, so their
+// cost is the number of start-to-end paths (a re-entered loop ends a walk).
+func c04ProgPaths(expr string) int {
+	r, err := syntax.Parse(expr, syntax.Perl)
+	if err != nil {
+		return 0
+	}
+	prog, err := syntax.Compile(r.Simplify())
+	if err != nil {
+		return 0
+	}
+	const limit = 1 << 30
+	memo := map[uint32]int{}
+	onStack := map[uint32]bool{}
+	var walk func(pc uint32) int
+	walk = func(pc uint32) int {
+		for {
+			i := prog.Inst[pc]
+			switch i.Op {
+			case syntax.InstAlt, syntax.InstAltMatch:
+				if onStack[pc] {
+					return 1
+				}
+				if n, ok := memo[pc]; ok {
+					return n
+				}
+				onStack[pc] = true
+				n := walk(i.Out) + walk(i.Arg)
+				onStack[pc] = false
+				if n > limit {
+					n = limit
+				}
+				memo[pc] = n
+				return n
+			case syntax.InstMatch, syntax.InstFail:
+				return 1
+			}
+			pc = i.Out
+		}
+	}
+	return walk(uint32(prog.Start))
+}
+
+// c04MaxProgPaths bounds the cost of the production analyses per expression.
+const c04MaxProgPaths = 2000
+
 func c04Analyse(expr string) (c04Analysis, error) {
 	re, err := binaryregexp.Compile(expr)
 	if err != nil {
 		return c04Analysis{}, err
 	}
 	a := c04Analysis{}
+	if c04ProgPaths(expr) > c04MaxProgPaths {
+		return a, errC04TooExpensive
+	}
 	a.prefix, a.complete = re.LiteralPrefix()
 	if a.complete {
 		a.min, a.max, a.suffix = uint(len(a.prefix)), uint(len(a.prefix)), a.prefix
@@ -358,6 +410,8 @@ func c04Analyse(expr string) (c04Analysis, error) {
 	}
 	return a, nil
 }
+
+var errC04TooExpensive = fmt.Errorf("analysis of the expression is too expensive")
 
 type c04Elem struct {
 	pieces   []c04Piece
@@ -702,36 +756,43 @@ func (e *c04Elem) minTooLarge() bool {
 
 // elem draws pieces with mk until the element is usable; shapes of open findings are re-drawn.
 func (g *c04Gen) elem(mk func() []c04Piece) *c04Elem {
-	for try := 0; ; try++ {
+	dir := 0
+	for try := 0; try < 8; try++ {
 		e := &c04Elem{pieces: mk(), dir: g.uni(2, "edir")}
-		if err := e.build(); err != nil {
+		dir = e.dir
+		err := e.build()
+		if err == errC04TooExpensive {
+			// regexanalysis.ConstantSuffix would need minutes for this expression
+			g.c.Label("redraw:analysis-too-expensive")
+			continue
+		}
+		if err != nil {
 			g.rt.Fatalf("harness error: generated expression %q does not compile: %v", e.pre, err)
 		}
-		if try < 8 {
-			if g.cfg.open[c04FindStaleCache] && e.minTooLarge() {
-				g.c.Count("excluded_known", 1)
-				g.c.Label("excluded:" + c04FindStaleCache)
-				continue
-			}
-			// also excluded: a failed search leaves the offset at the end of the data and the element is searched again
-			// on the empty rest in the next pass, where expressions like ^$ match
-			if g.cfg.open[c04FindReanchor] && e.assert && (e.an.prefix != "" || e.an.suffix != "" || e.rx.Match(nil)) {
-				g.c.Count("excluded_known", 1)
-				g.c.Label("excluded:" + c04FindReanchor)
-				continue
-			}
-			return e
+		if g.cfg.open[c04FindStaleCache] && e.minTooLarge() {
+			g.c.Count("excluded_known", 1)
+			g.c.Label("excluded:" + c04FindStaleCache)
+			continue
 		}
-		// fallback that is outside every open finding
-		e = &c04Elem{pieces: []c04Piece{{kind: c04PAtom, atom: c04Atoms[0]}, {kind: c04PAtom, atom: c04Atoms[2]}}, dir: e.dir}
-		if g.cfg.anchored {
-			e.pieces = append([]c04Piece{{kind: c04PAssert, name: `\b`}}, e.pieces...)
-		}
-		if err := e.build(); err != nil {
-			g.rt.Fatalf("harness error: %v", err)
+		// also excluded: a failed search leaves the offset at the end of the data and the element is searched again
+		// on the empty rest in the next pass, where expressions like ^$ match
+		if g.cfg.open[c04FindReanchor] && e.assert && (e.an.prefix != "" || e.an.suffix != "" || e.rx.Match(nil)) {
+			g.c.Count("excluded_known", 1)
+			g.c.Label("excluded:" + c04FindReanchor)
+			continue
 		}
 		return e
 	}
+	// fallback that is outside every open finding
+	g.c.Label("fallback-element")
+	e := &c04Elem{pieces: []c04Piece{{kind: c04PAtom, atom: c04Atoms[0]}, {kind: c04PAtom, atom: c04Atoms[2]}}, dir: dir}
+	if g.cfg.anchored {
+		e.pieces = append([]c04Piece{{kind: c04PAssert, name: `\b`}}, e.pieces...)
+	}
+	if err := e.build(); err != nil {
+		g.rt.Fatalf("harness error: %v", err)
+	}
+	return e
 }
 
 // chain draws a definer (named capture v) and a user (@v@) element.
@@ -1036,7 +1097,10 @@ func (g *c04Gen) payload(p *c04Pop) []c04Chunk {
 		segs = append(segs, c04Seg{dir, data})
 		total += len(data)
 	}
-	n := g.uni(6, "nseg")
+	n := 1 + g.uni(5, "nseg")
+	if g.chance(8, "emptypayload") {
+		n = 0
+	}
 	for i := 0; i < n && total < 500; i++ {
 		k := g.uni(100, "segkind")
 		switch {
